@@ -84,13 +84,12 @@ __CPROVER_loop_invariant((GA >= BUFLEN0 && GA < BUFLEN) ==> NAMEISH(BUFCH))
 __CPROVER_loop_invariant((GA >= BUFLEN && GA - BUFLEN < fCharIndex - charIndex_start) ==> NAMEISH(fCharBuf[charIndex_start + (GA - BUFLEN)]))
 @*/
 
-struct XMLReader nondet_reader(void);
 struct XMLBuffer TOFILL;
 void h_getName_chars(void)
 {
-  SELF = nondet_reader();
+  VERIF_INPUT(SELF);
   verif_thrown = 0;
-  _Bool token;
+  _Bool token; VERIF_INPUT(token);
   XMLReader_getName(&TOFILL, token);
   VERIF_CANARY("after call");
 }
